@@ -18,7 +18,18 @@ func init() { register("scenarios", cmdScenarios) }
 
 type sc struct {
 	*run
-	name string
+	name   string
+	budget int // steps (deliveries, timeouts) the schedule may still take; negative: no limit (the liveness driver cuts schedules short)
+}
+
+func (s *sc) spend() bool {
+	if s.budget == 0 {
+		return false
+	}
+	if s.budget > 0 {
+		s.budget--
+	}
+	return true
 }
 
 func (s *sc) node(i int) *cnode { return s.cl.nodes[i] }
@@ -57,6 +68,9 @@ func (s *sc) flush(pred func(p pending, kind string) bool) int {
 		if found < 0 {
 			return n
 		}
+		if !s.spend() {
+			return n
+		}
 		p := s.pool[found]
 		s.pool = append(s.pool[:found], s.pool[found+1:]...)
 		s.deliverTo(s.cl.nodes[p.to], p.raw, "deliver", p.from, "")
@@ -69,6 +83,9 @@ func (s *sc) flush(pred func(p pending, kind string) bool) int {
 func (s *sc) flushOne(pred func(p pending, kind string) bool) int {
 	for i, p := range s.pool {
 		if pred(p, kindOf(p.raw)) {
+			if !s.spend() {
+				return 0
+			}
 			s.pool = append(s.pool[:i], s.pool[i+1:]...)
 			s.deliverTo(s.cl.nodes[p.to], p.raw, "deliver", p.from, "")
 			return 1
@@ -117,12 +134,18 @@ func (s *sc) dropAll(pred func(p pending, kind string) bool) {
 
 func (s *sc) timeout(i int) {
 	n := s.node(i)
+	if !s.spend() {
+		return
+	}
 	if n.timeout() {
 		s.record(n, "timeout", obj{"k": "-"}, nil)
 	}
 }
 
 func (s *sc) inject(i int, raw *interfaces.ConsensusRawMessage, tmpl string) {
+	if !s.spend() {
+		return
+	}
 	s.tmpl[tmpl]++
 	s.deliverTo(s.node(i), raw, "deliver", "byz", tmpl)
 }
@@ -238,6 +261,22 @@ var scenarioTable = map[string]func(s *sc){
 			s.inject(i, s.adv.mkC(ref(protocol.LEAN_HELIX_COMMIT, 1, 1, z), s.cl.ids[1], "", ""), "c_byz_or_outsider")
 		}
 		s.flush(kinds("C"))
+	},
+	// the COMMIT quorum of view 0 completes at n2 only after n2 moved to view 1 and (finding H2) stored a standalone
+	// PREPREPARE of the Byzantine leader of view 1 for another block: what n2 hands to its commit callback must still
+	// be the block the COMMITs certify
+	"late_commit_quorum_after_later_view_proposal": func(s *sc) {
+		s.startNodes()
+		s.flush(kinds("PP"))
+		s.flush(kinds("P"))
+		s.flush(func(p pending, k string) bool { return k == "C" && p.to != 2 })
+		s.timeout(2)
+		s.dropAll(kinds("VC"))
+		z := s.adv.newBody(s.run, 1, false)
+		s.inject(2, s.adv.mkPP(ref(protocol.LEAN_HELIX_PREPREPARE, 1, 1, z), s.cl.ids[1], "", z), "pp_standalone_highview")
+		s.dropAll(kinds("P"))
+		s.flush(func(p pending, k string) bool { return k == "C" && p.to == 2 })
+		s.flush(any)
 	},
 	// H6: genuine locked votes reach the (unlocked) honest leader of view 2 with their blocks stripped off
 	"vote_with_proof_but_block_removed": func(s *sc) {
@@ -668,6 +707,25 @@ var scenarioTable = map[string]func(s *sc){
 	},
 }
 
+func scenarioByz(name string) []int {
+	switch name {
+	case "vote_with_block_but_no_proof", "spliced_proof_for_rejected_block", "future_commit_signed_for_other_instance":
+		return []int{0}
+	case "lagging_node_drains_cached_height":
+		return nil
+	}
+	return []int{1}
+}
+
+func scenarioNames() []string {
+	names := []string{}
+	for k := range scenarioTable {
+		names = append(names, k)
+	}
+	sort.Strings(names)
+	return names
+}
+
 func cmdScenarios(args []string) int {
 	fs := flag.NewFlagSet("scenarios", flag.ExitOnError)
 	outPath := fs.String("out", "scenarios.ndjson", "")
@@ -687,18 +745,12 @@ func cmdScenarios(args []string) int {
 		if *only != "" && *only != name {
 			continue
 		}
-		byz := []int{1}
-		if name == "vote_with_block_but_no_proof" || name == "spliced_proof_for_rejected_block" || name == "future_commit_signed_for_other_instance" {
-			byz = []int{0}
-		}
-		if name == "lagging_node_drains_cached_height" {
-			byz = nil
-		}
+		byz := scenarioByz(name)
 		cl := newCluster([]uint64{1, 1, 1, 1}, byz, 1, false)
 		r := &run{cl: cl, adv: newAdversary(cl), rnd: newRand(int64(i)), out: out, chain: map[uint64]commitRec{}, maxH: 2, stats: stats, tmpl: tmpl}
 		r.label = name
 		r.emitInit(i)
-		scenarioTable[name](&sc{run: r, name: name})
+		scenarioTable[name](&sc{run: r, name: name, budget: -1})
 		for _, nd := range r.honest() {
 			commits += len(nd.allCommits)
 		}
